@@ -39,7 +39,7 @@ func init() {
 	}})
 }
 
-func (p *c11) NumCases(tier string, seed int64) int { return tierN(tier, 600, 20000) }
+func (p *c11) NumCases(tier string, seed int64) int { return tierN(tier, 900, 20000) }
 
 type c11Injector struct {
 	name  string
